@@ -4,9 +4,10 @@ from __future__ import absolute_import
 from akext import _lib
 from akext import content as _content
 from akext import forms as _forms
-from akext._util import arg_int64, arg_bool, arg_double, arg_complex, cast_string, typestrs_arg, _badarg
+from akext._util import arg_int64, arg_bool, arg_double, arg_complex, cast_string, typestrs_arg, _badarg, no_pickle
 
 
+@no_pickle
 class LayoutBuilder(object):
     __slots__ = ("_h", "__weakref__")
 
